@@ -49,6 +49,17 @@ def gen(rng, tier):
             for b in rng_b:
                 for c in rng_s:
                     yield {"segs": [["list", ["slice", a, b, c]]], "doc": arr, "seed": 2}
+    # integers exactly at the I-JSON limits (RFC 9535 section 2.1: both ends are inside the range), in every position
+    lim = 2 ** 53 - 1
+    for arr in ([], ["a"], ["a", "b", "c"], {"k": ["a", "b", "c"]}):
+        for a, b, c in [(0, lim, None), (None, None, -lim), (-lim, None, None), (None, lim, 1), (lim, None, -1), (None, -lim, -1),
+                        (0, lim - 1, lim), (1, None, lim), (-lim, lim, lim), (lim, -lim, -lim), (None, None, lim - 1)]:
+            yield {"segs": [["list", ["slice", a, b, c]]], "doc": arr, "seed": 3}
+            yield {"segs": [["list", ["idx", 1], ["slice", a, b, c]]], "doc": arr, "seed": 3}
+            yield {"segs": ["desc", ["list", ["slice", a, b, c]]], "doc": arr, "seed": 3}
+        for i in (lim, -lim, lim - 1, 1 - lim):
+            yield {"segs": [["list", ["idx", i]]], "doc": arr, "seed": 3}
+            yield {"segs": ["desc", ["list", ["idx", i], ["idx", 0]]], "doc": arr, "seed": 3}
     n = 20000 if thorough else 1500
     for i in range(n):
         doc = rng.choice(docs) if rng.random() < 0.2 else (gen_container(rng, 4, 3, DOC_NAMES) if rng.random() < 0.8 else gen_doc(rng, 3, 3, DOC_NAMES))
